@@ -224,3 +224,9 @@ Example C14_example_table :
   | None => False
   end /\ compile_successors_s c14_aut = compile_successors c14_aut.
 Proof. vm_compute. repeat split. Qed.
+
+(* ---------------------------------------------------------------- the merge premise discharged (C12) *)
+Require Import LinkProofs.
+Theorem C14_merge_premise : merge_spec.
+Proof. exact merge_spec_holds. Qed.
+Print Assumptions C14_merge_premise.
